@@ -209,7 +209,8 @@ def revRaw (sub : FileLike) (w : Nat) (_pos size : Int) (s : Store) : Res (List 
   | (.error e, s1) => (.error e, s1)
   | (.ok raw, s1) =>
     let rows := size.toNat / w
-    if w = 0 ∨ raw.length ≠ rows * w then (.error .other, s1)     -- numpy reshape ValueError
+    if raw.length ≠ size.toNat then (.error .sectorRead, s1)      -- the window reaches beyond the data (after the `fix:` of D17)
+    else if w = 0 ∨ raw.length ≠ rows * w then (.error .other, s1)     -- numpy reshape ValueError
     else (.ok (chunks w rows raw).reverse.flatten, s1)
 
 def mkRev (sub : FileLike) (i : Nat) (eof : Int) (w : Nat) : FileLike where
